@@ -317,3 +317,79 @@ def mk_time(t):
     from nrel.hive.model.sim_time import SimTime
 
     return SimTime(t)
+
+
+class OrderedView:
+    """
+    same elements as an unordered container, iteration order chosen by the solver:
+    `order` is a tuple of (symbolic) ints; element k is emitted at the position of its rank.
+    Stands in for set / frozenset / h3.k_ring results whose real iteration order depends on
+    the interpreter's string-hash seed.
+    """
+
+    def __init__(self, items, perm):
+        self.items = tuple(items)
+        self.perm = perm  # concrete tuple (a permutation of range(len(items))) decoded by the harness
+
+    def __len__(self):
+        return len(self.items)
+
+    def __contains__(self, x):
+        return x in self.items
+
+    def __iter__(self):
+        for i in self.perm:
+            yield self.items[i]
+
+    def __eq__(self, o):
+        if isinstance(o, OrderedView):
+            return set(self.items) == set(o.items)
+        if isinstance(o, (set, frozenset)):
+            return set(self.items) == o
+        return NotImplemented
+
+    def __hash__(self):
+        return hash(frozenset(self.items))
+
+    def union(self, other):
+        return frozenset(self.items).union(other)
+
+    def __repr__(self):
+        return "OrderedView(%r)" % (self.items,)
+
+    def __ch_deep_realize__(self, memo):
+        return self
+
+
+PERMS2 = ((0, 1), (1, 0))
+PERMS3 = ((0, 1, 2), (0, 2, 1), (1, 0, 2), (1, 2, 0), (2, 0, 1), (2, 1, 0))
+
+
+def perm_of(i, n):
+    """decode a (symbolic) index into a concrete permutation of range(n), n in {1, 2, 3}"""
+    if n == 1:
+        return (0,)
+    table = PERMS2 if n == 2 else PERMS3
+    for k in range(len(table)):
+        if i == k:
+            return table[k]
+    return None
+
+
+def sym_int(x):
+    """
+    int() that stays symbolic on a real-modelled float: CrossHair's patched builtin int() deep-realises any symbolic
+    value that is not already an int, which turns a search into an enumeration.  RealBasedSymbolicFloat.__int__ itself
+    is exact (truncation via z3 ToInt); this helper just calls it directly.
+    """
+    if boot.is_symbolic(x):
+        return x.__int__()
+    return int(x)
+
+
+def install_units_int_shim():
+    """hours_to_seconds (whole-second rounding of travel times) reads the module-global name `int`"""
+    from nrel.hive.util import units
+
+    if boot.SYMBOLIC:
+        units.int = sym_int
